@@ -109,7 +109,7 @@ class Overlay:
 
 class Item:
     """one generated item"""
-    __slots__ = ('entry', 'key', 'kind', 'container', 'impl_header', 'modpath', 'full', 'stub', 'ratio', 'identical', 'log', 'name', 'ghost_counts', 'code_tokens', 'canary_full', 'n_canaries', 'header_tokens', 'variant', 'assumed', 'out_tokens', 'body_index', 'is_mp')
+    __slots__ = ('entry', 'key', 'kind', 'container', 'impl_header', 'modpath', 'full', 'stub', 'ratio', 'identical', 'log', 'name', 'ghost_counts', 'code_tokens', 'canary_full', 'n_canaries', 'header_tokens', 'variant', 'assumed', 'out_tokens', 'body_index', 'is_mp', 'impl_ghost')
 
 
 def _proof_fn_stub(text):
@@ -233,6 +233,7 @@ class Generator:
             it.out_tokens = None
             it.body_index = None
             it.is_mp = False
+            it.impl_ghost = None
             it.assumed = 'assumed' in e.opts
             if e.kind in ('raw', 'spec'):
                 it.full = text
@@ -334,6 +335,14 @@ class Generator:
         it.modpath = modpath
         it.name = it.key
         it.code_tokens = len(C)
+        if cmap[0] > 0 and it.kind == 'fn' and impl is not None:
+            # a ghost region in front of the first real token of a method = ghost members of the
+            # enclosing impl block (e.g. `open spec fn cast_req/cast_post` of a trait impl): they are
+            # emitted inside the `impl HEADER { .. }` block before the fn, for the full item and its stub alike
+            k0 = cmap[0]
+            it.impl_ghost = join(out[:k0])
+            out = out[k0:]
+            cmap = [c - k0 for c in cmap]
         if it.kind == 'struct':
             it.full = join(out)
             it.stub = it.full
@@ -476,6 +485,7 @@ class Generator:
         m.variant = None
         m.assumed = it.assumed
         m.is_mp = True
+        m.impl_ghost = None
         m.full = join(h2 + b2)
         m.canary_full = m.full
         m.n_canaries = 0
@@ -548,6 +558,8 @@ class Generator:
                         if ' for ' in it.impl_header and not it.is_mp:
                             for ty in self.x.impl_types.get(it.impl_header, []):
                                 emit(ty)
+                        if it.impl_ghost:
+                            emit(it.impl_ghost)
                         emit(body, it if own else None)
                         emit('}')
                     else:
